@@ -6,8 +6,10 @@ cd /verif
 ./check $PID > /tmp/reg_$PID.log 2>&1; RC=$?
 tail -3 /tmp/reg_$PID.log
 if [ $RC -ne 0 ]; then echo "CHECK FAILED rc=$RC (not registering)"; exit 1; fi
+grep -qx $PID tools/registered.txt || echo $PID >> tools/registered.txt
+sort -o tools/registered.txt tools/registered.txt
 /venv/bin/python tools/mkmanifest.py
-git add MANIFEST.json evidence/$PID.json tools/props_$PID.py coq/props/$PID.v notes/$PID.md known_findings.json 2>/dev/null
+git add tools/registered.txt MANIFEST.json evidence/$PID.json tools/props_$PID.py coq/props/$PID.v notes/$PID.md known_findings.json 2>/dev/null
 for g in $(/venv/bin/python -c "import sys; sys.path.insert(0,'tools'); from props import PROPS; print(' '.join(PROPS['$PID'].get('gen_files',[])))"); do git add coq/gen_baseline/$g 2>/dev/null; done
 for frag in "$@"; do
   git add coq/model/*$frag*.v coq/proofs/*$frag*.v coq/gen_baseline/*$frag*.v tools/corr/l_*$frag*.py tools/translate/t_*$frag*.py corpus/*$frag* fixes/${PID}_* 2>/dev/null
